@@ -17,6 +17,7 @@ import os
 import random
 import re
 import threading
+import warnings
 from fractions import Fraction
 
 from harness import common, tlc, tracecheck
@@ -25,13 +26,14 @@ from harness import replay as rp
 from harness.armi_env import armi_ready
 
 MODDIR = os.path.join(common.SPEC, "inventory")
-NAMES = {"a": "U235", "b": "U238", "c": "NA23"}
-ORDER = ["a", "b", "c"]
+NAMES = {"a": "U235", "b": "U238", "c": "NA23", "d": "U236"}  # d: an isotope of the element that does not occur naturally
+ORDER = ["a", "b", "c", "d"]
 SELS = {"a": "U235", "b": "U238", "c": "NA23", "E": "U", "Lac": ["U235", "NA23"], "LEc": ["U", "NA23"], "all": None}
 # a handful of double operations per query: rtol 1e-9; absolute floor for differences of O(1) numbers (removeMass) and for
 # TRACE_NUMBER_DENSITY = 1e-50 that clearNumberDensities writes where the model says 0
 RTOL, ATOL = 1e-9, 1e-12
-WEIGHT_FREE_ACTIONS = {"SetN", "UpdateN", "SetNs", "Scale", "Clear", "SetHeight"}
+WEIGHT_FREE_ACTIONS = {"SetN", "UpdateN", "SetNs", "Scale", "Clear", "SetHeight", "AdjustDensity"}
+LSRC = 600  # cfg constant LSrc: mass-fraction edits start from states with a small common denominator
 WEIGHT_FREE_OBS = ("vol", "nucs", "nd", "atoms")
 LMAX, VMAX = 20000, 100  # the model's bound on magnitudes (cfg constants LMax / VMax); the trace driver stays inside it
 _SELFTEST = False
@@ -171,7 +173,7 @@ class InvAdapter:
         self.count += 1
         w = self.world(fam)
         N = fl(root["N"])
-        H = [[NAMES[ORDER[i]] for i in range(3) if hb[i]] for hb in root["H"]]
+        H = [[NAMES[ORDER[i]] for i in range(len(ORDER)) if hb[i]] for hb in root["H"]]
         for i, b in enumerate(w.blocks):  # geometry first (a height change clears the block's caches)
             h = float(root["hgt"][i]) if "hgt" in root else float(self.tree["height"][str(b)])
             if w.node[b].getHeight() != h:
@@ -220,9 +222,24 @@ class InvAdapter:
                 o.setMasses({NAMES[k]: fl(a["m"][k]) / K for k in ORDER if k in a["m"]})
             elif n == "SetHeight":
                 if a["cons"]:
-                    o.setHeight(float(a["h"]), conserveMass=True, adjustList=sorted(o.getNuclides()))
+                    o.setHeight(float(a["h"]), conserveMass=True, adjustList=[NAMES[k] for k, on in zip(ORDER, a["adj"]) if on])
                 else:
                     o.setHeight(float(a["h"]))
+            elif n == "AdjustDensity":
+                o.adjustDensity(fl(a["f"]), [NAMES[k] for k, on in zip(ORDER, a["adj"]) if on])
+            elif n == "AdjustEnrich":
+                o.adjustMassEnrichment(fl(a["f"]))
+            elif n == "AdjustMF":
+                kw = {"val": fl(a["v"])}
+                kw["elementToAdjust" if a["adj"] == "E" else "nuclideToAdjust"] = "U" if a["adj"] == "E" else NAMES[a["adj"]]
+                if a["hold"]:
+                    kw["elementToHoldConstant" if a["hold"] == "E" else "nuclideToHoldConstant"] = "U" if a["hold"] == "E" else NAMES[a["hold"]]
+                try:
+                    o.adjustMassFrac(**kw)
+                except RuntimeError as ex:  # modelled refusal: nothing here to adjust ("Failed to adjust mass fraction.")
+                    if "adjust mass fraction" not in str(ex):
+                        raise
+                    w.err = "RuntimeError"
             else:
                 raise AssertionError("unknown action " + n)
         except ValueError:
@@ -261,6 +278,10 @@ class InvAdapter:
         one = {k: float(o.getMassFrac(NAMES[k])) for k in ORDER}
         if rp.diff(q["mf"], one, rtol=RTOL, atol=ATOL):
             q["mf"] = {"inconsistent": {"getMassFracs": q["mf"], "getMassFrac": one}}
+        if q["dens"] != "material" and "numberDensities" in o.p:
+            with warnings.catch_warnings():  # 0/0 on numpy floats where the element is absent (not compared there)
+                warnings.simplefilter("ignore")
+                q["enr"] = float(o.getMassEnrichment())  # components only: share of the enriched nuclide within its element
         return q
 
     def far_obs(self, o, x):
@@ -288,6 +309,8 @@ class InvAdapter:
                 del o["dens"]
             if any(v == -1.0 for v in o["mf"].values()):
                 del o["mf"]
+            if o.get("enr") == -1.0:
+                del o["enr"]
             if self.weight_free:
                 o = {k: o[k] for k in WEIGHT_FREE_OBS}
             q.append(o)
@@ -467,6 +490,150 @@ defect = abs(c.getMass("U235") - 6.0) > 1e-9 or abs(c.getMasses()["U235"] - c.ge
 """
 
 
+# ------------------------------------------------------------------------------------------------------------
+# placement: the symmetry factor as state (Placement.tla)
+# ------------------------------------------------------------------------------------------------------------
+class PlacementAdapter:
+    """A fresh third core + spent fuel pool with three one-block assemblies per behaviour (the operations are destructive)."""
+    NUC = "U235"
+
+    def build(self, root):
+        w = gb.build_placement()
+        w.ids = dict(w.A)  # model id -> assembly (4 = the edge copy, once it exists)
+        return w
+
+    def query(self, w):
+        """the reads of the model's Query action, in its order: core density, core volume, every assembly's volume"""
+        core = w.core
+        out = {"coreND": float(core.getNumberDensity(self.NUC)) if len(core) else 0.0, "coreVol": float(core.getVolume())}
+        out["vol"] = {k: float(a.getVolume()) for k, a in w.ids.items()}
+        return out
+
+    def apply(self, w, a):
+        n, core = a["n"], w.core
+        loc = lambda p: core.spatialGrid[w.loc[p][0], w.loc[p][1], 0]  # noqa: E731
+        if n == "Query":
+            self.query(w)
+        elif n == "AddEdges":
+            w.changer.addEdgeAssemblies(core)
+            new = [x for x in core if all(x is not y for y in w.ids.values())]
+            if len(new) > 1:
+                raise AssertionError("more than one edge assembly appeared")
+            if new:
+                w.ids[4] = new[0]
+        elif n == "RemoveEdges":
+            w.changer.removeEdgeAssemblies(core)
+            if 4 in w.ids and w.ids[4].parent is None:
+                del w.ids[4]
+        elif n == "Move":
+            core.removeAssembly(w.ids[a["a"]], discharge=False)
+            core.add(w.ids[a["a"]], loc(a["p"]))
+        elif n == "Swap":
+            w.fh.swapAssemblies(w.ids[a["a"]], w.ids[a["b"]])
+        elif n == "Discharge":
+            core.removeAssembly(w.ids[a["a"]])
+        elif n == "Charge":
+            w.sfp.remove(w.ids[a["a"]])
+            core.add(w.ids[a["a"]], loc(a["p"]))
+        else:
+            raise AssertionError(n)
+        return ""
+
+    def where(self, w, a):
+        if a.parent is w.sfp:
+            return "sfp"
+        if a.parent is not w.core:
+            return "elsewhere(%r)" % (a.parent,)
+        ij = tuple(int(v) for v in a.spatialLocator.getCompleteIndices()[:2])
+        for name, xy in w.loc.items():
+            if xy == ij:
+                return name
+        return "at%r" % (ij,)
+
+    def project(self, w):
+        q = self.query(w)
+        blocks_ = [b for a in w.core for b in a]
+        out = {"coreVol": q["coreVol"], "coreND": q["coreND"],
+               "coreAtoms": float(sum(b.getNumberDensity(self.NUC) * b.getVolume() for b in blocks_)), "a": []}
+        for k in (1, 2, 3, 4):
+            a = w.ids.get(k)
+            if a is None:
+                out["a"].append({"where": "gone"})
+                continue
+            out["a"].append({"where": self.where(w, a), "sym": float(a.getSymmetryFactor()), "asmVol": q["vol"][k],
+                             "blkSum": float(sum(b.getVolume() for b in a)),
+                             "atoms": float(sum(b.getNumberDensity(self.NUC) * b.getVolume() for b in a))})
+        return out
+
+
+REPRO_DISCHARGE = """\
+import armi; armi.isConfigured() or armi.configure(permissive=True)
+import sys; sys.path.insert(0, "/verif")
+from harness import gen_blocks
+w = gen_blocks.build_placement()            # third core + spent fuel pool; assembly 1 (one block) sits at the centre: symmetry factor 3
+a = w.A[1]
+print("in the core : getVolume() =", a.getVolume(), " sum of block volumes =", sum(b.getVolume() for b in a))   # fills the block's cached area
+w.core.removeAssembly(a)                    # discharged into the spent fuel pool: the whole assembly, symmetry factor 1
+print("in the pool : getVolume() =", a.getVolume(), " sum of block volumes =", sum(b.getVolume() for b in a), " symmetry factor", a.getSymmetryFactor())
+defect = abs(a.getVolume() - sum(b.getVolume() for b in a)) > 1e-9
+"""
+
+
+def placement(rep, thorough, seed):
+    ad = PlacementAdapter()
+    cfg = "Placement_emit%s.cfg" % ("_thorough" if thorough else "")
+    chosen, first = None, None
+    for v in ("clears", "keeps"):
+        env = {"C02_DISCHARGE": v}
+        res = run_tlc("Placement", cfg, env, workers=1, coverage=False, extra=("-continue",))
+        obs = {rp.skey(p["st"]): fl(p["obs"]) for p in res.prints if isinstance(p, dict) and "st" in p}
+        edges = [dict(p, obs=obs[rp.skey(p["to"])]) for p in res.prints if isinstance(p, dict) and "act" in p and rp.skey(p["to"]) in obs]
+        g = rp.Graph(edges)
+        # stale values need a query somewhere in the history: all of those histories, and a seeded sample of the others
+        withq = [e for e in g.edges if any(s_["act"]["n"] == "Query" for s_ in g.path.get(e["_fk"], []) + [e])]
+        others = [e for e in g.edges if e not in withq]
+        rng = random.Random(seed)
+        g.edges = withq + (others if thorough and len(others) <= 1500 else rng.sample(others, min(len(others), 1500 if thorough else 120)))
+        n, nt, divs = rp.replay_graph(g, ad)
+        if n == 0:
+            raise tlc.MachineryError("Placement: no edges")
+        if not divs:
+            chosen = v
+            rep.add_tlc("exhaustive+edges:%s[%s]" % (cfg, v), res)
+            rep.add_replay("placement-histories", n, nt,
+                           "placement / query histories (add and remove edge assemblies, move, swap, discharge to the pool, charge back, interleaved "
+                           "volume and density queries) executed on a fresh real third core each; afterwards position, symmetry factor, "
+                           "Assembly.getVolume, block-volume sums, atoms, Core.getVolume and Core.getNumberDensity compared with Placement.tla")
+            if g.edges:
+                e = g.edges[len(g.edges) // 2]
+                rep.sample({"kind": "placement", "path": [s_["act"] for s_ in g.path[e["_fk"]]] + [e["act"]], "expected": e["obs"]})
+            break
+        if first is None or len(divs) < len(first[1]):
+            first = (v, divs)  # neither design conforms: report against the closer one
+    if chosen is None:
+        chosen = first[0]
+        for d in first[1]:
+            where = re.sub(r"\[\d+\]", "", d["first_difference"].split(":")[0]).strip(".")
+            rep.violation("replay:Placement:%s:%s" % (d["action"]["n"], where),
+                          "a real third core diverges from Placement.tla after %s: %s" % (json.dumps(d["behaviour"]), d["first_difference"]),
+                          dict(d, direction="replay", adapter="placement"))
+    rep.note("Placement.tla design (cached block area when an assembly leaves the core) implemented by the code under test: %s" % chosen)
+    env = {"C02_DISCHARGE": chosen}
+    if not _SELFTEST:
+        runs = [run_tlc("Placement", cfg, env, workers=1, coverage=False, extra=("-continue",))]
+        if thorough:
+            runs.append(run_tlc("Placement", "Placement_mc.cfg", env, want_prints=False, coverage=False))
+            rep.add_tlc("exhaustive:Placement_mc.cfg[%s]" % chosen, runs[-1])
+        found = {}
+        for r_ in runs:
+            found.update(violations_of(r_))
+        for name, trace in found.items():
+            rep.violation("tlc:" + name, "after Core.removeAssembly(a) has discharged a centre (or half) assembly into the spent fuel pool, its blocks keep "
+                          "the cached area that was divided by the old symmetry factor: Assembly.getVolume() is a third (half) of the sum of its block "
+                          "volumes (the code conforms to the '%s' design of Placement.tla on every replayed history; TLC: %s violated)" % (chosen, name),
+                          {"direction": "tlc", "design": chosen, "trace": trace[:6000], "reproducer": REPRO_DISCHARGE})
+
+
 def empty_density_probe(rep):
     """Inventory.tla leaves the density of an all-zero component to the material (not compared); the query must still answer.
     One call per material used by the shape families."""
@@ -540,7 +707,7 @@ def area_cache(rep):
 # the run
 # ------------------------------------------------------------------------------------------------------------
 ACTIONS = ("BSetN", "BUpdateN", "BSetNs", "BScale", "BClear", "BAddMass", "BRemoveMass", "BSetMass", "BSetMassFracs",
-           "BAddMasses", "BSetMasses", "BSetHeight")
+           "BAddMasses", "BSetMasses", "BSetHeight", "BAdjustDensity", "BAdjustEnrich", "BAdjustMF")
 
 
 def replay_config(rep, cfg, env, families, label, max_edges=None, seed=0, weight_free_too=True, dt=True, narrow=False):
@@ -626,13 +793,16 @@ def run(rep, tier, seed):
     thorough = tier == "thorough"
     suffix = "_thorough" if thorough else ""
     mc = ["Inventory_core_mc%s.cfg" % suffix] + (["Inventory_blk_mc_thorough.cfg", "Inventory_edge_mc_thorough.cfg", "Inventory_core_geom_mc.cfg",
-                                                  "Inventory_core_inv_thorough.cfg", "Inventory_edge_inv_thorough.cfg"] if thorough else [])
-    emit = ["Inventory_core_acct.cfg", "Inventory_blk_acct.cfg", "Inventory_edge_acct.cfg", "Inventory_core_geom_emit%s.cfg" % suffix] + (
-        ["Inventory_blk_emit_thorough.cfg", "Inventory_core_emit_thorough.cfg"] if thorough else [])
+                                                  "Inventory_core_inv_thorough.cfg", "Inventory_edge_inv_thorough.cfg",
+                                                  "Inventory_gap_inv_thorough.cfg"] if thorough else [])
+    emit = ["Inventory_core_acct.cfg", "Inventory_blk_acct.cfg", "Inventory_edge_acct.cfg", "Inventory_gap_acct.cfg",
+            "Inventory_core_geom_emit%s.cfg" % suffix] + (
+        ["Inventory_blk_emit_thorough.cfg", "Inventory_core_emit_thorough.cfg", "Inventory_gap_emit_thorough.cfg"] if thorough else [])
     pool = concurrent.futures.ThreadPoolExecutor(max_workers=8 if not thorough else 5)
-    sanys = [pool.submit(tlc.sany, m, MODDIR) for m in ("Inventory_mc", "Inventory_trace", "AreaCache")]
+    sanys = [pool.submit(tlc.sany, m, MODDIR) for m in ("Inventory_mc", "Inventory_trace", "AreaCache", "Placement")]
     env0 = dict(DESIGNS[0])
-    jobs = [("AreaCache", "AreaCache_emit.cfg", {"C02_AREAKEY": "keyed"}, dict(workers=1, coverage=False, extra=("-continue",)))]
+    jobs = [("AreaCache", "AreaCache_emit.cfg", {"C02_AREAKEY": "keyed"}, dict(workers=1, coverage=False, extra=("-continue",))),
+            ("Placement", "Placement_emit%s.cfg" % suffix, {"C02_DISCHARGE": "clears"}, dict(workers=1, coverage=False, extra=("-continue",)))]
     jobs += [("Inventory_mc", c, env0, dict(workers=1, coverage=False)) for c in emit]
     if not _SELFTEST:
         jobs += [("Inventory_mc", c, env0, dict(want_prints=False, coverage=False)) for c in mc]
@@ -650,12 +820,14 @@ def run(rep, tier, seed):
     rep.note("design alternatives of Inventory.tla the code under test conforms to: %s" % json.dumps(env))
     area_cache(rep)
     empty_density_probe(rep)
+    placement(rep, thorough, seed)
 
     # code -> spec, first half: record the random edit histories now, let TLC validate them while the replays below run
     pending = []
-    for tname, cfg in (("Core", "Inventory_core_trace.cfg"), ("Edge", "Inventory_edge_trace.cfg"))[: 2 if thorough else 1]:
+    for tname, cfg in (("Core", "Inventory_core_trace.cfg"), ("Edge", "Inventory_edge_trace.cfg"), ("Gap", "Inventory_gap_trace.cfg"))[: 3 if thorough else 1]:
         tree = tree_of(run_tlc("Inventory_mc", "Inventory_%s_acct.cfg" % tname.lower(), env, workers=1, coverage=False))
-        traces = trace_driver(tree, 150 if thorough else 32, 14 if thorough else 8, seed, tname)
+        traces = trace_driver(tree, (60 if tname == "Gap" else 150) if thorough else 32, 14 if thorough else 8, seed, tname,
+                              families=(["gap"] if tname == "Gap" else gb.FAMILIES))
         pending.append((tname, cfg, tree, traces,
                         pool.submit(tracecheck.validate, "Inventory_trace", cfg, MODDIR, traces, timeout=3000, env=env)))
 
@@ -676,7 +848,8 @@ def run(rep, tier, seed):
             if not counts:
                 raise tlc.MachineryError("no action counts printed by " + cfg)
             rep.tlc[-1]["actions"] = dict(zip(ACTIONS, counts[0]))
-            skip = ("BUpdateN", "BSetNs", "BScale", "BSetMassFracs", "BSetMasses") if "geom" in cfg else ()  # narrow by construction
+            skip = ("BUpdateN", "BSetNs", "BScale", "BSetMassFracs", "BSetMasses", "BAdjustDensity", "BAdjustEnrich",
+                    "BAdjustMF") if "geom" in cfg else ()  # narrow by construction
             never = [a for a, c in zip(ACTIONS, counts[0]) if a not in skip and c == 0]
             if never:
                 raise tlc.MachineryError("vacuous: actions never taken in %s: %s" % (cfg, never))
@@ -703,6 +876,9 @@ def run(rep, tier, seed):
                        ("Inventory_edge_acct.cfg", "edge-assemblies-tree")):
         names, _ = replay_config(rep, cfg, env, fams, label, seed=seed, narrow=not thorough)
         seen |= names
+    # a block whose Void gap has a (legal) negative hot area: read-back and additivity with a negative child volume
+    names, _ = replay_config(rep, "Inventory_gap_acct.cfg", env, ["gap"], "closed-gap-block", seed=seed, narrow=not thorough)
+    seen |= names
     # histories three edits deep around a height change (edit above the block ; setHeight ; edit above it again): what a value
     # cached above the block across the geometry change would break
     names, _ = replay_config(rep, "Inventory_core_geom_emit%s.cfg" % ("_thorough" if thorough else ""), env, fams, "height-change-histories",
@@ -713,8 +889,10 @@ def run(rep, tier, seed):
             replay_config(rep, "Inventory_blk_emit_thorough.cfg", env, [fam], "block-tree-2-edits:" + fam, seed=seed, dt=(fam == "circle"),
                           weight_free_too=(fam == "hot"), max_edges=(None if fam == "circle" else 4000))
         replay_config(rep, "Inventory_core_emit_thorough.cfg", env, fams, "third-core-tree-2-edits", seed=seed, dt=False, max_edges=8000)
+        replay_config(rep, "Inventory_gap_emit_thorough.cfg", env, ["gap"], "closed-gap-block-2-edits", seed=seed, dt=False, max_edges=6000)
     need = {"SetN", "SetN!", "UpdateN", "SetNs", "Scale", "Clear", "AddMass", "AddMass!", "RemoveMass", "SetMass", "SetMass!",
-            "SetMassFracs", "SetMassFracs!", "AddMasses", "AddMasses!", "SetMasses", "SetMasses!", "SetHeight"}
+            "SetMassFracs", "SetMassFracs!", "AddMasses", "AddMasses!", "SetMasses", "SetMasses!", "SetHeight", "SetHeight!",
+            "AdjustDensity", "AdjustEnrich", "AdjustMF", "AdjustMF!"}
     seen = {x.rstrip("!") if x.startswith("Scale") else x for x in seen}
     if need - seen:
         raise tlc.MachineryError("vacuous: never replayed: %s" % sorted(need - seen))
@@ -797,7 +975,7 @@ def snapshot(ad, w):
         if h != int(h):
             return None
         hgt.append(int(h))
-    return {"N": N, "H": H, "hgt": hgt}
+    return {"N": N, "H": H, "hgt": hgt, "_lcm": lcm}
 
 
 def _gcd(a, b):
@@ -806,18 +984,20 @@ def _gcd(a, b):
     return a
 
 
-def trace_driver(tree, ntraces, nev, seed, tname):
+def trace_driver(tree, ntraces, nev, seed, tname, families=gb.FAMILIES):
     rng = random.Random(seed * 104729 + len(tname))
     K, _ = units()
     traces = []
     with weights(tree["w"]):
-        ads = {fam: InvAdapter(tree, [fam]) for fam in gb.FAMILIES}
+        ads = {fam: InvAdapter(tree, [fam]) for fam in families}
         for t in range(ntraces):
-            fam = gb.FAMILIES[t % len(gb.FAMILIES)]
+            fam = families[t % len(families)]
             ad = ads[fam]
             # a random initial composition from the parameter pool
-            N0 = [{k: rat(rng.choice(VALS[1:])) if rng.random() < 0.6 else [0, 1] for k in ORDER} for _ in range(tree["nleaf"])]
-            root = {"N": N0, "H": [[N0[l][k] != [0, 1] or rng.random() < 0.15 for k in ORDER] for l in range(tree["nleaf"])],
+            N0 = [{k: rat(rng.choice(VALS[1:])) if rng.random() < 0.6 and tree["area"][l] > 0 else [0, 1] for k in ORDER}
+                  for l in range(tree["nleaf"])]  # (a Void gap of negative area starts empty)
+            root = {"N": N0, "H": [[N0[l][k] != [0, 1] or (rng.random() < 0.15 and tree["area"][l] > 0) for k in ORDER]
+                                   for l in range(tree["nleaf"])],
                     "hgt": [rng.choice(tree["hdom"]) for _ in range(tree["nblk"])]}
             for l in range(tree["nleaf"]):  # a key that is not held has density 0
                 for i, k in enumerate(ORDER):
@@ -825,10 +1005,11 @@ def trace_driver(tree, ntraces, nev, seed, tname):
                         root["N"][l][k] = [0, 1]
             w = ad.build(root)
             init = snapshot(ad, w)
+            lcm = init.pop("_lcm")
             ev = []
             cleared = False
             for _ in range(nev):
-                a = random_action(ad, w, rng, K, cleared)
+                a = random_action(ad, w, rng, K, cleared, lcm <= LSRC)
                 if a is None:
                     continue
                 try:
@@ -839,6 +1020,7 @@ def trace_driver(tree, ntraces, nev, seed, tname):
                         # event only if the model agrees that the edit leaves the domain
                         ev.append({"a": a, "post": {"outside": True}})
                         break
+                    lcm = snap.pop("_lcm")
                     ev.append({"a": a, "post": dict(snap, err=err)})
                     cleared = cleared or (a["n"] in ("Clear", "SetMasses"))
                 except Exception as ex:  # noqa: BLE001  an escaping exception ends the history; TLC rejects the event
@@ -848,12 +1030,15 @@ def trace_driver(tree, ntraces, nev, seed, tname):
     return traces
 
 
-def random_action(ad, w, rng, K, cleared):
+def random_action(ad, w, rng, K, cleared, tame=True):
     x = rng.randrange(1, ad.nnode + 1)
+    if ad.kind[x] == "leaf" and ad.tree["area"][x - 1] < 0:
+        return None  # the Void gap itself is not edited directly
     o = w.node[x]
     leaf = ad.kind[x] == "leaf"
     kind = rng.choice(["SetN", "SetN", "UpdateN", "SetNs", "Scale", "Clear", "AddMass", "AddMass", "RemoveMass", "SetMass", "SetMass",
-                       "SetMassFracs", "SetMassFracs", "AddMasses", "AddMasses", "SetMasses", "SetHeight", "SetHeight", "SetHeight"])
+                       "SetMassFracs", "SetMassFracs", "AddMasses", "AddMasses", "SetMasses", "SetHeight", "SetHeight", "SetHeight",
+                       "AdjustDensity", "AdjustEnrich", "AdjustEnrich", "AdjustMF", "AdjustMF"])
     nuc = rng.choice(ORDER)
 
     def have(k):  # the mass the edit itself works with: density x the volume addMass/setMass use
@@ -866,10 +1051,36 @@ def random_action(ad, w, rng, K, cleared):
         b = rng.choice(w.blocks)
         blk = w.node[b]
         hs = [h for h in ad.tree["hdom"] if float(h) != blk.getHeight()]
-        cons = rng.random() < 0.5
-        if cons and not blk.getNuclides():
+        cons = rng.random() < 0.6
+        adj = [cons and rng.random() < 0.6 for _ in ORDER]  # all, proper subsets, empty (ValueError), nuclides nobody holds
+        return {"n": kind, "x": b, "h": rng.choice(hs), "cons": cons, "adj": adj}
+    if kind == "AdjustDensity":
+        return {"n": kind, "x": rng.choice(w.blocks), "f": rat(rng.choice(FACS)), "adj": [rng.random() < 0.5 for _ in ORDER]}
+    if kind in ("AdjustEnrich", "AdjustMF") and (cleared or not tame):
+        return None
+    if kind == "AdjustEnrich":
+        if not leaf:
+            x = rng.choice([l for l in w.leaves if ad.tree["area"][l - 1] > 0])
+            o = w.node[x]
+        d = o.p.numberDensities
+        if NAMES["a"] not in d or not any(d.get(NAMES[k], 0.0) for k in ("b", "d")):
+            return None  # KeyError / ZeroDivisionError in adjustMassEnrichment: not requested
+        return {"n": kind, "x": x, "f": rat(rng.choice([Fraction(1, 5), Fraction(1, 2), Fraction(1, 20), Fraction(3, 4)]))}
+    if kind == "AdjustMF":
+        adj, hold = rng.choice([("a", ""), ("a", "b"), ("c", ""), ("c", "E"), ("d", "c"), ("E", ""), ("E", "c"), ("b", "a"), ("d", "")])
+        v = rng.choice([Fraction(1, 10), Fraction(1, 4), Fraction(1, 2), Fraction(1, 5), Fraction(3, 4)])
+        if leaf and not any(o.p.numberDensities.values()):
             return None
-        return {"n": kind, "x": b, "h": rng.choice(hs), "cons": cons}
+        here = set(o.getNuclides())
+        if not any(o.getNumberDensity(n) for n in here):
+            return None
+        members = {"E": ["a", "b", "d"], "": []}
+        cn = [NAMES[k] for k in members.get(hold, [hold]) if NAMES[k] in here]
+        an = [NAMES[k] for k in members.get(adj, [adj]) if NAMES[k] in here]
+        csum = sum(o.getMassFrac(n) for n in cn)
+        if an and float(v) + csum > 1.0 - 1e-6:
+            return None  # legal request: the adjusted and the held fractions fit into one
+        return {"n": kind, "x": x, "adj": adj, "hold": hold, "v": rat(v)}
     if kind == "AddMasses":
         ks = sorted(rng.sample(ORDER, rng.randrange(1, 4)))
         m = {}
@@ -900,7 +1111,7 @@ def random_action(ad, w, rng, K, cleared):
         # legal use: never all there is
         return {"n": kind, "x": x, "nuc": nuc, "m": rat(m)} if float(m) < have(nuc) * (1 - 1e-9) else None
     if kind == "SetMassFracs":
-        if cleared:
+        if cleared or not tame:
             return None
         ks = sorted(rng.sample(ORDER, rng.randrange(1, 4)))
         fm, tot = {}, Fraction(0)
@@ -927,8 +1138,8 @@ def _weight(k):
 # ------------------------------------------------------------------------------------------------------------
 def replay(payload):
     d = payload.get("direction")
-    if d == "replay" and payload.get("adapter") == "area":
-        ad = AreaAdapter()
+    if d == "replay" and payload.get("adapter") in ("area", "placement"):
+        ad = AreaAdapter() if payload["adapter"] == "area" else PlacementAdapter()
         steps = [{"act": a, "obs": {}} for a in payload["behaviour"]]
         steps[-1]["obs"] = payload["expected"]
         r = rp.run_behaviour(ad, payload.get("root"), steps, check_from=len(steps) - 1)
